@@ -63,7 +63,7 @@ func selLenOfParamPath(i int) an.QSelector {
 }
 
 func C14(p *an.Prog, r *an.Report) {
-	r.Explanation = "For every exported type with a Validate() method and every exported constructor of that type, the inclusion reject(Validate) ⊆ reject(constructor) is decided for the quantities both can see: each integer argument, the length of each slice argument, and the nil-ness of each pointer/interface/slice argument. The constructor is evaluated path-sensitively with the quantity tracked as a set of intervals (bit-mask tests included); every abstract value it can return without error is then handed, with the remaining feasible range, to Validate, whose must-reject region inside that range has to be empty. A non-empty region names argument values the constructor accepts and its own validator rejects. Also: the EncryptedLeaseSet reader reaches its success return only through a checked Validate. Validate ⇒ clean round trip rests on C01; per-element rules (e.g. key length per key type) are outside the quantities tracked here. Integer arguments are additionally evaluated with each pointer/interface argument fixed to nil and non-nil. N4: every conversion of a length-derived integer to a narrower unsigned type reachable from the exported API fits its target (relational proof with caller pre-conditions and field-length invariants). N5: trailing signature type source."
+	r.Explanation = "For every exported type with a Validate() method and every exported constructor of that type, the inclusion reject(Validate) ⊆ reject(constructor) is decided for the quantities both can see: each integer argument, the length of each slice argument, and the nil-ness of each pointer/interface/slice argument. The constructor is evaluated path-sensitively with the quantity tracked as a set of intervals (bit-mask tests included); every abstract value it can return without error is then handed, with the remaining feasible range, to Validate, whose must-reject region inside that range has to be empty. A non-empty region names argument values the constructor accepts and its own validator rejects. Also: the EncryptedLeaseSet reader reaches its success return only through a checked Validate. Validate ⇒ clean round trip rests on C01; per-element rules (e.g. key length per key type) are outside the quantities tracked here. Integer arguments are additionally evaluated with each pointer/interface argument fixed to nil and non-nil. N4: every conversion of a length-derived integer to a narrower unsigned type reachable from the exported API fits its target (relational proof with caller pre-conditions and field-length invariants). N5: trailing signature type source. N6: the size invariant behind the reviewed Mapping.Data narrowing (C11.M3). N7 = C10.T4. N8: no successful return of a validator is reachable when a declared length differs from len(data). N9 = C01.R9."
 	r.Rule = "one obligation per (constructor, argument quantity); non-trivial = the constructor has a success path for some value of the quantity"
 	r.Trusted = []string{"go/ssa; opaque treatment of callees that receive only unknown arguments"}
 
